@@ -235,8 +235,10 @@ impl Report {
 
     pub fn finish(mut self) -> ! {
         let wall = self.start.elapsed().as_secs_f64();
+        // A trigger counter that stayed at zero makes silence vacuous; but when violations were
+        // found the run is a verdict (a broken subject may well suppress the trigger).
         for name in &self.required_nonzero {
-            if self.counter(name) == 0 {
+            if self.violations.is_empty() && self.counter(name) == 0 {
                 machinery_error(&format!(
                     "vacuity guard: counter '{name}' is zero for {} ({})",
                     self.args.prop,
